@@ -3,6 +3,7 @@ From Coq Require Import String ZArith List Bool.
 From FcpV Require Import Base.Bits Schema.Types Wire.Wire Wire.WireProofs Py.PySerde Py.PySerdeProofs.
 From FcpV Require Import Py.BufferLib gen.PyBuffer Py.BufferProofs gen.PyLeaf Py.LeafProofs.
 From FcpV Require Import Py.DispatchLib Py.DispatchDefs Py.DispatchProofs Py.DispatchExample.
+From FcpV Require Import Verifier.Checks Py.BufferLib Py.DispatchLib Verifier.ChecksLib Layout.Packed Layout.EncoderLib Specs.SpecsLib Specs.SpecsProofs.
 Import ListNotations.
 Open Scope Z_scope.
 
@@ -148,3 +149,20 @@ Example c01_source_nonvacuous :
   NoDup (map sname (structs ex_sc)) /\ resolve ex_sc "M" = Some ex_t /\ uniq ex_t /\ repr ex_t ex_v = true /\
   (depth ex_t <= S 8)%nat /\ has_type_gen py_okS ex_t ex_v = true.
 Proof. exact hypotheses_nonvacuous. Qed.
+
+(* ---- the look-ups the translated codec calls (FcpV2.get_struct / get_enum, Enum.get_packed_size: translated from specs/v2.py and
+   specs/enum.py on every run, gen/PySpecs.v) are the functions its run-time library assumes; only the float log2 inside
+   get_packed_size stays an assumption (py_floor_log2_plus1) ---- *)
+Theorem source_lookups_are_the_library :
+  forall t name,
+    (PySpecs.py_FcpV2_get_struct t name = POk (find (fun s => String.eqb (sname s) name) (t_structs t)) /\
+     py_get_struct (schema_of t) name = match find (fun s => String.eqb (sname s) name) (t_structs t) with Some s => POk s | None => PRaise PyUnwrapError end) /\
+    (PySpecs.py_FcpV2_get_enum t name = POk (find (fun e => String.eqb (ename e) name) (t_enums t)) /\
+     py_get_enum (schema_of t) name = match find (fun e => String.eqb (ename e) name) (t_enums t) with Some e => POk e | None => PRaise PyUnwrapError end).
+Proof. intros t name. split; [apply get_struct_is_library|apply get_enum_is_library]. Qed.
+Print Assumptions source_lookups_are_the_library.
+
+Theorem source_enum_width_is_the_library :
+  forall e, Forall (fun v => 0 <= v) (map snd (evals e)) -> PySpecs.py_Enum_get_packed_size e = POk (enum_packed_size e).
+Proof. exact get_packed_size_is_model. Qed.
+Print Assumptions source_enum_width_is_the_library.
